@@ -22,6 +22,6 @@ PROP = {
  'extra_targets': ['build/bin/eph'],
  'replay_cmd': ['{ROOT}/harness/C35_hyp.py', '--replay', '{path}'],
  'tiers': {'quick': [rc(1200),
-                     script(['{ROOT}/harness/C35_hyp.py', '--cases', '96', '--workers', '4'], name='hyp', label='Hypothesis black-box (real eph serve, abusive clients)', timeout_s=900)],
+                     script(['{ROOT}/harness/C35_hyp.py', '--cases', '64', '--workers', '4'], name='hyp', label='Hypothesis black-box (real eph serve, abusive clients)', timeout_s=900)],
            'thorough': [rc(6000, W), fuzz(300, 8, max_len=8 + 16 * 14),
                         script(['{ROOT}/harness/C35_hyp.py', '--cases', '1600', '--workers', '8'], name='hyp', label='Hypothesis black-box (real eph serve, abusive clients)', timeout_s=3600)]}}
